@@ -93,6 +93,8 @@ type World struct {
 	// Lookup resolves filter references against the committed store.
 	stepping   *Pair
 	preMigrate func(db *fakepg.DB)
+	storeIgs   bool                 // integrations live in shovel.integrations, not in the file
+	igs        []config.Integration // every integration (validated), wherever it is kept
 	mu         sync.Mutex
 }
 
@@ -104,6 +106,10 @@ type WorldOpt func(w *World)
 // WithPreMigrate runs f on the database after shovel's own schema exists and
 // before config.Migrate (pre-existing user tables).
 func WithPreMigrate(f func(db *fakepg.DB)) WorldOpt { return func(w *World) { w.preMigrate = f } }
+
+// WithStoredIntegrations keeps the integrations in shovel.integrations (as the dashboard
+// stores them: validated, complete JSON) instead of the file; the file then lists sources only.
+func WithStoredIntegrations() WorldOpt { return func(w *World) { w.storeIgs = true } }
 
 func NewWorld(t fataler, sources []*SourceCfg, decls []*refmodel.Decl, opts ...WorldOpt) (*World, error) {
 	pg, ns := env()
@@ -152,6 +158,19 @@ func NewWorld(t fataler, sources []*SourceCfg, decls []*refmodel.Decl, opts ...W
 	}
 	if err := config.Migrate(context.Background(), w.pool, w.conf); err != nil {
 		return w, fmt.Errorf("Migrate: %w", err)
+	}
+	w.igs = w.conf.Integrations
+	if w.storeIgs {
+		for _, ig := range w.igs {
+			cj, err := json.Marshal(ig)
+			if err != nil {
+				return w, err
+			}
+			if _, err := w.pool.Exec(context.Background(), `insert into shovel.integrations(name, conf) values ($1, $2)`, ig.Name, cj); err != nil {
+				return w, fmt.Errorf("storing integration: %w", err)
+			}
+		}
+		w.conf.Integrations = nil
 	}
 	if err := w.buildTasks(); err != nil {
 		return w, err
@@ -208,7 +227,7 @@ func (w *World) buildTasks() error {
 	for _, s := range w.Sources {
 		s.client = nil
 	}
-	for i, ig := range w.conf.Integrations {
+	for i, ig := range w.igs {
 		if !ig.Enabled {
 			continue
 		}
@@ -590,7 +609,7 @@ func (w *World) rebuildTasksWithClients() error {
 		keep[s.Name] = s.client
 	}
 	var pairs []*Pair
-	for i, ig := range w.conf.Integrations {
+	for i, ig := range w.igs {
 		if !ig.Enabled {
 			continue
 		}
